@@ -280,6 +280,7 @@ class VTensor(V):
         self.linop_class = linop_class
         self.label = label
         self.view_of = None
+        self.view_read = None
         self.requires_grad = False
         self.meta = {}
 
@@ -337,7 +338,11 @@ class VTensor(V):
     def frozen(self):
         """snapshot of the current value: later in-place mutation of `self` does not affect the snapshot
         (closures of derived tensors must read the value the operand had when the operation ran)"""
-        t = VTensor(list(self.dims), self.elem, self.sort, self.is_linop, self.label, self.linop_class)
+        elem = self.elem
+        if self.view_of is not None and getattr(self, "view_read", None) is not None:
+            base_elem, reader = self.view_of[0].elem, self.view_read  # a view reads its base: snapshot the base's current value
+            elem = lambda idx: reader(base_elem, idx)  # noqa: E731
+        t = VTensor(list(self.dims), elem, self.sort, self.is_linop, self.label, self.linop_class)
         t.meta = self.meta
         t.requires_grad = self.requires_grad
         return t
@@ -562,7 +567,14 @@ def pointwise(ctx, tensors, f, sort=None):
         # no probing evaluation (element functions may record assumptions): arithmetic keeps the widest input sort
         sorts = {t.sort for t in tensors}
         sort = "real" if "real" in sorts else ("int" if "int" in sorts else "bool")
-    return VTensor(dims, elem, sort)
+    r = VTensor(dims, elem, sort)
+    masks = [t.meta.get("masked_by") for t in tensors if t.meta.get("masked_by") is not None]
+    if masks:
+        if all(m is masks[0] for m in masks):
+            r.meta["masked_by"] = masks[0]
+        else:
+            raise Undecided("pointwise operation between selections by different masks")
+    return r
 
 
 def _arith(op):
@@ -642,6 +654,17 @@ def assign_inplace(dst, src, ctx=None):
                 lead = idx[: nb - 2]
                 i, j = idx[nb - 2], idx[nb - 1]
                 return z3.If(i == j, _coerce_to(selem(lead + [i]), old(idx)), old(idx))
+
+            base.elem = elem
+            dst.elem = src.elem
+            return
+        if isinstance(kind, tuple) and kind[0] == "diagonal_general":
+            _, a1, a2, rest_pos = kind
+            old = base.elem
+            selem = src.elem
+
+            def elem(idx, old=old, selem=selem):
+                return z3.If(idx[a1] == idx[a2], _coerce_to(selem([idx[q] for q in rest_pos] + [idx[a1]]), old(idx)), old(idx))
 
             base.elem = elem
             dst.elem = src.elem
@@ -999,6 +1022,8 @@ def slice_params(ctx, s, n):
 
 
 def index_tensor(t, it, ctx, idx):
+    if isinstance(idx, VTensor) and idx.sort == "bool" and len(idx.dims) == len(t.dims):
+        return m_masked_select(t, it, ctx, [idx], {})
     t = t.frozen()
     items = list(idx.items) if isinstance(idx, VTuple) else [idx]
     items = [x.force(it, ctx) if isinstance(x, VAny) else x for x in items]
@@ -1182,6 +1207,21 @@ def tensor_from_list(ctx, lst):
 
 
 def setitem_tensor(t, it, ctx, idx, v):
+    if isinstance(idx, VTensor) and idx.sort == "bool" and len(idx.dims) == len(t.dims):
+        src = as_tensor(v)
+        if src.natoms() > 0 and src.meta.get("masked_by") is not idx:
+            raise Undecided("mask assignment from a source that was not selected by the same mask")
+        old, me = t.elem, idx.elem
+        se = src.elem if src.natoms() > 0 else (lambda i_: src.elem([]))
+
+        def elem(i_):
+            n, o = coerce_pair(se(i_), old(i_))
+            return z3.If(me(i_), n, o)
+
+        t.elem = elem
+        t.sort = "real" if "real" in (t.sort, src.sort) else t.sort
+        t.meta["version"] = t.meta.get("version", 0) + 1
+        return
     raise Undecided("tensor slice assignment")
 
 
@@ -1356,7 +1396,7 @@ def _mulc(x, y):
 def diagonal(ctx, t, dim1=-2, dim2=-1):
     p1, p2 = norm_dim(ctx, t, dim1), norm_dim(ctx, t, dim2)
     if {p1, p2} != {len(t.dims) - 2, len(t.dims) - 1}:
-        raise Undecided("diagonal over non-trailing dims")
+        return _diagonal_general(ctx, t, p1, p2)
     lead = t.dims[:-2]
     nl = sum(len(d.atoms) for d in lead)
     d = t.dims[-1]
@@ -1365,8 +1405,42 @@ def diagonal(ctx, t, dim1=-2, dim2=-1):
         t = flatten_dim(flatten_dim(t, len(t.dims) - 1), len(t.dims) - 2)
         d = Dim([z3.If(t.dims[-2].size < t.dims[-1].size, t.dims[-2].size, t.dims[-1].size)]) if not same_extent(ctx, t.dims[-2].size, t.dims[-1].size) else t.dims[-1]
         n1 = 1
-    r = VTensor(lead + [d], lambda idx: t.elem(idx[:nl] + idx[nl:] + idx[nl:]), t.sort)
+    reader = lambda belem, idx: belem(idx[:nl] + idx[nl:] + idx[nl:])  # noqa: E731
+    r = VTensor(lead + [d], lambda idx: reader(t.elem, idx), t.sort)
     r.view_of = (t, "diagonal")
+    r.view_read = reader
+    return r
+
+
+def _diagonal_general(ctx, t, p1, p2):
+    """torch.diagonal over arbitrary dims: remaining dims in order, the diagonal appended last"""
+    if p1 == p2:
+        raise PyRaise(VExc("RuntimeError", "diagonal dimensions cannot be identical"))
+    if len(t.dims[p1].atoms) != 1 or len(t.dims[p2].atoms) != 1:
+        t = flatten_dim(flatten_dim(t, max(p1, p2)), min(p1, p2))
+    offs, o = [], 0
+    for dd in t.dims:
+        offs.append(o)
+        o += len(dd.atoms)
+    e1, e2 = t.dims[p1].size, t.dims[p2].size
+    d = t.dims[p1] if same_extent(ctx, e1, e2) else Dim([z3.If(e1 < e2, e1, e2)])
+    rest = [q for q in range(len(t.dims)) if q not in (p1, p2)]
+    base = t
+
+    def reader(belem, idx):
+        full = [None] * base.natoms()
+        pos = 0
+        for q in rest:
+            for a in range(len(base.dims[q].atoms)):
+                full[offs[q] + a] = idx[pos]
+                pos += 1
+        full[offs[p1]] = idx[pos]
+        full[offs[p2]] = idx[pos]
+        return belem(full)
+
+    r = VTensor([t.dims[q] for q in rest] + [d], lambda idx: reader(base.elem, idx), t.sort)
+    r.view_read = reader
+    r.view_of = (t, ("diagonal_general", offs[p1], offs[p2], [offs[q] + a for q in rest for a in range(len(t.dims[q].atoms))]))
     return r
 
 
@@ -1511,6 +1585,20 @@ def m_sum(t, it, ctx, a, k, mean=False):
     dim = a[0] if a else k.get("dim", k.get("axis"))
     keep = k.get("keepdim", a[1] if len(a) > 1 else FALSE)
     keep = bool(keep.concrete()) if isinstance(keep, VBool) else False
+    if (dim is None or dim is NONE) and t.sort == "bool" and t.natoms() > 0 and not mean:
+        # the number of True entries: a fresh count c >= 0 with the universally valid fact  elem(idx) => c >= 1  (recorded,
+        # instantiated by the contract at the indices it reasons about) and a Skolem witness for  c > 0 => some entry is True
+        cnt = z3.Int(fresh("count"))
+        tf = t.frozen()
+
+        def fact(idx, tf=tf, cnt=cnt):
+            return z3.Implies(tf.in_range(idx), z3.Implies(tf.elem(list(idx)), cnt >= 1))
+
+        ctx.ghost.setdefault("forall_facts", []).append((tf.natoms(), fact))
+        ks = [ivar("w") for _ in range(tf.natoms())]
+        ctx.assume(z3.And(cnt >= 0, z3.Implies(cnt > 0, z3.And(tf.in_range(ks), tf.elem(list(ks))))))
+        ctx.ghost.setdefault("witnesses", []).append(ks)
+        return VTensor([], lambda idx: cnt, "int")
     if dim is None or dim is NONE:
         r = t
         for _ in range(len(t.dims)):
@@ -1647,10 +1735,7 @@ def m_diagonal(t, it, ctx, a, k):
     d1 = k.get("dim1", a[1] if len(a) > 1 else VNum(-2))
     d2 = k.get("dim2", a[2] if len(a) > 2 else VNum(-1))
     if not t.is_linop and not (len(a) > 1 or "dim1" in k):
-        d1, d2 = VNum(0), VNum(1)
-        if len(t.dims) != 2:
-            raise Undecided("torch diagonal with default dims on batched tensor")
-        return diagonal(ctx, t, -2, -1)
+        return diagonal(ctx, t, 0, 1)
     return diagonal(ctx, t, d1, d2)
 
 
@@ -1761,9 +1846,73 @@ METHODS = {
     "where": m_where, "expand_as": lambda t, it, ctx, a, k: expand(ctx, t, [d.size for d in a[0].dims]),
     "view_as": lambda t, it, ctx, a, k: reshape(ctx, t, [d.size for d in a[0].dims]),
 }
+def _m_tri(lower):
+    def m(t, it, ctx, a, k):
+        dg = a[0] if a else k.get("diagonal", VNum(0))
+        off = dg.t if isinstance(dg, VNum) else z3.IntVal(int(dg))
+        t = t.frozen()
+        if len(t.dims) < 2:
+            raise PyRaise(VExc("RuntimeError", "tril: input tensor must have at least 2 dimensions"))
+        if len(t.dims[-2].atoms) != 1 or len(t.dims[-1].atoms) != 1:
+            t = flatten_dim(flatten_dim(t, len(t.dims) - 1), len(t.dims) - 2)
+        zero = z3.RealVal(0) if t.sort == "real" else (z3.BoolVal(False) if t.sort == "bool" else z3.IntVal(0))
+
+        def elem(idx):
+            i, j = idx[-2], idx[-1]
+            keep = (j - i <= off) if lower else (j - i >= off)
+            return z3.If(keep, t.elem(idx), zero)
+
+        return VTensor(list(t.dims), elem, t.sort)
+
+    return m
+
+
+METHODS["tril"] = _m_tri(True)
+METHODS["triu"] = _m_tri(False)
 for _n in ("add", "sub", "mul", "div", "pow", "neg", "abs", "exp", "log", "sqrt", "clamp", "clamp_min", "clamp_max", "square",
-           "masked_fill", "sigmoid", "tanh", "reciprocal"):
+           "masked_fill", "sigmoid", "tanh", "reciprocal", "tril", "triu"):
     METHODS[_n + "_"] = _inplace(METHODS[_n])
+def m_masked_select(t, it, ctx, a, k):
+    """the entries selected by a boolean mask, kept in place: all operations between masked_select and
+    masked_scatter_ / mask assignment are pointwise, so the selection is represented as the full-shape tensor
+    tagged with its mask (an entry outside the mask is never observed)"""
+    mask = a[0]
+    r = VTensor(list(t.dims), t.elem, t.sort)
+    r.meta = {"masked_by": mask}
+    return r
+
+
+def m_masked_scatter_(t, it, ctx, a, k):
+    mask, src = a[0], a[1]
+    if src.meta.get("masked_by") is not mask:
+        raise Undecided("masked_scatter_ with a source that was not selected by the same mask")
+    old, se, me = t.elem, src.elem, mask.elem
+
+    def elem(idx):
+        o, n = old(idx), se(idx)
+        n, o = coerce_pair(n, o)
+        return z3.If(me(idx), n, o)
+
+    t.elem = elem
+    t.sort = "real" if "real" in (t.sort, src.sort) else t.sort
+    t.meta["version"] = t.meta.get("version", 0) + 1
+    return t
+
+
+def m_tolist(t, it, ctx, a, k):
+    n = z3.simplify(t.dims[0].size)
+    if len(t.dims) != 1 or not z3.is_int_value(n):
+        raise Undecided("tolist of a tensor of symbolic size")
+    out = []
+    for i in range(n.as_long()):
+        v = z3.simplify(t.elem([z3.IntVal(i)]))
+        out.append(VBool(v) if z3.is_bool(v) else VNum(v))
+    return VList(out)
+
+
+METHODS["masked_select"] = m_masked_select
+METHODS["masked_scatter_"] = m_masked_scatter_
+METHODS["tolist"] = m_tolist
 METHODS["fill_"] = m_fill_
 METHODS["copy_"] = lambda t, it, ctx, a, k: (assign_inplace(t, a[0], ctx), t)[1]
 
